@@ -537,6 +537,7 @@ class IteratorQueue(IterableQueue[_ValueT]):
     self._max_enqueuer = max_enqueuer
     self._enqueue_start = 0
     self._enqueue_stop = 0
+    self._stopped = False
     self.ignore_error = ignore_error
 
   @classmethod
@@ -578,7 +579,7 @@ class IteratorQueue(IterableQueue[_ValueT]):
   @property
   def enqueue_done(self) -> bool:
     """Indicates whether there is ongoing enqueuer."""
-    if self._exception:
+    if self._exception or self._stopped:
       return True
     # If max_enqueuer is not set, it means the no enqueuer has started yet.
     if not self._max_enqueuer:
@@ -767,6 +768,8 @@ class IteratorQueue(IterableQueue[_ValueT]):
     exc = exc or StopIteration()
     with self._states_lock:
       self._enqueue_stop = self._enqueue_start = self._max_enqueuer
+      # An enqueuer starting after the stop must not re-open the queue.
+      self._stopped = True
       if not is_stop_iteration(exc):
         self._exception = exc
       assert self.enqueue_done, f'{self._enqueue_stop=}, {self._enqueue_start=}'
